@@ -107,7 +107,7 @@ def min(a, b)
 
 # Returns true if the value is odd
 def odd(x)  {
-  if (x % 2 == 1)
+  if (x % 2 != 0)
   {
     true
   } else {
